@@ -23,7 +23,7 @@ import (
 
 func buildScenarios(c *vkit.Ctx) []e2e.Scenario {
 	var out []e2e.Scenario
-	n := c.N(32, 300)
+	n := c.N(2*len(e2e.Families), 18*len(e2e.Families))
 	for i := 0; i < n; i++ {
 		r := c.Rand("scenario", i)
 		fam := e2e.Families[i%len(e2e.Families)]
